@@ -195,6 +195,18 @@ func c05Case(w *core.Worker, i int) {
 	}
 	tp := colProfile{Kind: "text", Vals: c05Texts, NullPct: 15}
 	gt := genTable(r, "t", n, []colProfile{tp, tp}, []string{"c1", "c2"})
+	wideT := i%12 == 7
+	if wideT {
+		// a wide table (22..32 columns): statements that name more than twenty columns at once
+		var profs []colProfile
+		var cn []string
+		for c := r.Range(22, 32); c > 0; c-- {
+			profs = append(profs, tp)
+			cn = append(cn, fmt.Sprintf("c%d", len(cn)+1))
+		}
+		gt = genTable(r, "t", r.Range(1, 6), profs, cn)
+		w.Count("histories_over_a_wide_table", 1)
+	}
 	gu := genTable(r, "u", r.Range(0, 10), []colProfile{tp}, []string{"c1"})
 	files := map[string]string{"t.csv": gt.CSV(), "u.tsv": renderFile("tsv", gu)}
 	tabs := map[string]*mTable{"t": modelFromG(gt), "u": modelFromG(gu)}
@@ -226,7 +238,12 @@ func c05Case(w *core.Worker, i int) {
 		}
 		t := tabs[names[r.Intn(len(names))]]
 		tn := t.Name
-		switch r.Intn(13) {
+		opk := r.Intn(13)
+		if wideT && k == 1 {
+			opk, t = 12, tabs["t"]
+			tn = t.Name
+		}
+		switch opk {
 		case 0, 1: // INSERT VALUES (all columns)
 			var rowsSQL []string
 			cnt := r.Range(1, 3)
@@ -547,6 +564,10 @@ func c05Case(w *core.Worker, i int) {
 				}
 				perm := r.Perm(len(cand))
 				nd := r.Range(2, len(cand)-0)
+				if wideT && len(cand) > 22 && r.P(70) {
+					nd = r.Range(21, len(cand)-1)
+					w.Count("drops_of_more_than_twenty_columns", 1)
+				}
 				if nd > len(cand)-1 {
 					nd = len(cand) - 1
 				}
